@@ -240,6 +240,29 @@ def ident_rule(ctx):
     qn = repo.fn('pony.orm.dbapiprovider', 'DBAPIProvider.quote_name')
     ok = any(norm(s).replace(' ', '') == 'name=name.replace(quote_char,quote_char+quote_char)' for s in walk_no_nested(qn.node) if isinstance(s, ast.Assign))
     ctx.ob('C06-IDENT.quote_name-doubles-the-quote-character', qn, qn.node, ok, '' if ok else 'quote_name no longer doubles the quote character inside identifiers')
+    # ... on EVERY path: each return of quote_name either uses the (re-bound) name after the doubling replace, or is assembled from recursive
+    # quote_name calls on the components of a qualified (schema, table) name
+    g = cg.cfg(qn); pname = qn.params[1]
+    dbl = [x for x in g.nodes if x.kind == 'stmt' and isinstance(x.ast, ast.Assign) and norm(x.ast).replace(' ', '') == '%s=%s.replace(quote_char,quote_char+quote_char)' % (pname, pname)]
+    rets = [x for x in g.nodes if x.kind == 'stmt' and isinstance(x.ast, ast.Return) and x.ast.value is not None]
+    ctx.floor('C06-IDENT', len(rets), 2, 'returns of quote_name')
+    for r in rets:
+        uses_name = any(isinstance(a, ast.Name) and a.id == pname for a in ast.walk(r.ast.value))
+        recursive = [c for c in ast.walk(r.ast.value) if isinstance(c, ast.Call) and isinstance(c.func, ast.Attribute) and c.func.attr == 'quote_name']
+        if recursive:
+            # the raw name may only be the iterable whose items go through the recursive call
+            okr = all(isinstance(c.args[0], ast.Name) and c.args[0].id != pname for c in recursive if c.args)
+            raw = [a for a in ast.walk(r.ast.value) if isinstance(a, ast.Name) and a.id == pname]
+            okr = okr and all(any(isinstance(gn, ast.comprehension) and gn.iter is a for ge in ast.walk(r.ast.value) if isinstance(ge, (ast.GeneratorExp, ast.ListComp)) for gn in ge.generators) for a in raw)
+        else:
+            okr = uses_name and bool(dbl) and g.dominated(r, dbl)
+            # and the name is not re-bound to something undoubled after the replace
+            if okr:
+                rebinds = [x for x in g.nodes if x.kind == 'stmt' and isinstance(x.ast, ast.Assign) and any(dotted(t) == pname for t in x.ast.targets) and x not in dbl]
+                okr = not any(x.id in g.reach(dbl, include_src=False) and r.id in g.reach([x]) for x in rebinds)
+        ctx.ob('C06-IDENT.quote_name-doubles-on-every-path', qn, r.ast, okr,
+               '' if okr else 'this return of quote_name emits (a component of) the name without the doubling `replace(quote_char, quote_char+quote_char)`: a qualified name whose '
+               'part contains the quote character closes the identifier early and changes the statement', node=r.ast)
     n = 0
     for cls in repo.subclasses(repo.cls(SB, 'SQLBuilder')):
         for name, f in cls.methods.items():
@@ -362,6 +385,7 @@ def delegated(x, pm, f):
 
 
 MUTANTS = [
+    dict(id='C06-q1', file='pony/orm/dbapiprovider.py', fn='DBAPIProvider.quote_name', old="            return quote_char + name + quote_char\n        return '.'.join(provider.quote_name(item) for item in name)", new="        else:\n            name = (quote_char + '.' + quote_char).join(name)\n        return quote_char + name + quote_char", expect='C06-IDENT.quote_name-doubles-on-every-path'),
     dict(id='C06-lt1', file='pony/orm/dbproviders/sqlite.py', fn='SQLiteValue.__str__', old="return self.quote_str(datetime2timestamp(value))", new="return self.quote_str(value.isoformat(' '))", expect='C06-LITTWIN'),
     dict(id='C06-lt2', file='pony/orm/dbproviders/sqlite.py', fn='SQLiteValue.__str__', old="return self.quote_str(str(value))", new="return self.quote_str(value.isoformat())", benign=True),
     dict(id='C06-m1', file='pony/orm/sqltranslation.py', fn='StringMixin._like',
